@@ -147,8 +147,8 @@ func (w *flWorld) step(t, k int, l *bufferList) {
 		op.off = off
 		op.inside = off%flStride == 0 && off < uint32(w.n*flStride) &&
 			s.cap == flCap && len(s.data) == flCap && s.isFromShm &&
-			vfSameObject(s.data, w.mem) && vfOffsetOf(s.data) == int(off)+bufferListHeaderSize+bufferHeaderSize &&
-			vfOffsetOf(s.bufferHeader) == int(off)+bufferListHeaderSize && len(s.bufferHeader) == bufferHeaderSize
+			vfOffsetIn(s.data, w.mem) == int(off)+bufferListHeaderSize+bufferHeaderSize &&
+			vfOffsetIn(s.bufferHeader, w.mem) == int(off)+bufferListHeaderSize && len(s.bufferHeader) == bufferHeaderSize
 		if !op.inside {
 			return
 		}
@@ -318,8 +318,8 @@ func (w *flWorld) monitor() {
 	})
 }
 
-// family "stall": T0 performs one allocation and may stall anywhere inside it (R=2) while the
-// adversary T1 performs K symbolic operations.
+// family "stall": T0 performs one allocation and may stall at any single point inside it while
+// the adversary T1 performs K operations (kinds = shape, which slice to recycle = symbolic).
 func flStall(prop string) {
 	n := vfShape("slots", 2, flMaxN)
 	free := vfShape("free", 1, n)
@@ -328,7 +328,9 @@ func flStall(prop string) {
 	vfShared(w.mem, flStride)
 	vfShared(w.ghost, flStride)
 	vfSpawn(func() { w.step(0, 0, w.views[0]) })
-	vfSpawn(func() {
+	// the adversary runs its K operations back to back while T0 is stalled (it is scheduled once,
+	// after T0's first segment): T0's stall point is symbolic, the adversary is sequential
+	vfSpawnAtomic(func() {
 		for k := 0; k < K; k++ {
 			w.step(1, k, w.views[1])
 		}
